@@ -5,6 +5,15 @@ from .. import monitors as M, largefiles
 
 def run(ctx):
     scs = _scn.standard_pool(ctx, ctx.scale(70, 1200), ctx.scale(45, 600))
+    # one -sf run that names files with the same name (relative to their own history) in different histories
+    scs.insert(0, {"profile": "c02-sf-twins", "root": "card", "tree": {"clip.mov": "root clip", "A/clip.mov": "a clip", "B/clip.mov": "b clip", "B/sub/clip.mov": "deep"},
+                   "ops": [{"op": "create", "at": "A", "h": ["md5"], "now": "2026-03-01 12:00:01"}, {"op": "create", "at": "B", "h": ["md5"], "now": "2026-03-01 12:00:02"},
+                           {"op": "create", "at": "", "h": ["md5"], "now": "2026-03-01 12:00:03", "sf": ["clip.mov", "A/clip.mov", "B/clip.mov", "B/sub/clip.mov"]}, {"op": "verify", "at": ""}]})
+    # generations whose number of records sits on round numbers (writers that batch their output)
+    for n in (63, 64, 127, 128, 129, 256):
+        t = {"f%03d.bin" % i: "content %d" % i for i in range(n - 1)}
+        t["d/x.txt"] = "x"  # + 1 folder record + its file = n + 1 records in folder mode; flatten: n file paths
+        scs.insert(0, {"profile": "c02-count", "impl_only": True, "root": "root", "tree": t, "ops": [{"op": "create", "at": "", "h": ["md5"], "now": "2026-03-01 12:00:01"}, {"op": "verify", "at": ""}]})
     # patterns are matched relative to the COMMAND root, also when -sf names a folder that belongs to a nested history
     for pat in ("C/x/skip.txt", "C/x/", "/C/x/skip.txt", "x/skip.txt"):
         scs.insert(0, {"profile": "c02-sf-anchored", "root": "root", "tree": {"C/x/skip.txt": "s", "C/x/keep.txt": "k", "C/y.txt": "y", "top.txt": "t", "x/skip.txt": "outer"},
